@@ -243,10 +243,21 @@ def step(case, rng, mole, t: Table, ops_log):
         else:
             keep = [bool(x) for x in rng.random(N) < 0.6]
             pred = (keep, np.array(keep, dtype=bool), pl.Series("m", keep, dtype=pl.Boolean))[int(rng.integers(0, 3))]
+        if rng.random() < 0.2 and N > 0:
+            # a predicate that keeps every molecule
+            keep = [True] * N
+            pred = (pl.col("uid") >= 0, np.ones(N, dtype=bool), keep)[int(rng.integers(0, 3))]
         ops_log[-1] = f"filter[{type(pred).__name__}]"
         out = mole.filter(pred)
         t2 = Table([r for r, m in zip(t.rows, keep) if m], t.columns)
         compare(case, out, t2, ops_log[-1])
+        # the result is a table of its own: in-place edits of a second result of the same call leave the input as it was
+        probe = mole.filter(pred)
+        case.check(probe is not mole, "filter returned its input object", None, n_kept=len(t2.rows), n=N)
+        if len(probe):
+            probe.translate([1.0, -2.0, 3.0], copy=False)
+            probe.append(probe.copy())
+        compare(case, mole, t, "input of filter after in-place edits of the result")
         return out, t2
 
     if op == "sort":
@@ -449,6 +460,18 @@ def step(case, rng, mole, t: Table, ops_log):
             grp = mole.groupby(by)
         else:
             grp = mole.group_by([pl.col(c) for c in by]) if len(by) > 1 else mole.group_by(pl.col(by[0]))
+        # computed keys (an expression on a feature, aliased or not): the groups' members keep their own features
+        if "uid" in t.columns and N > 0 and rng.random() < 0.5:
+            mod_ = int(rng.integers(2, 4))
+            ex_ = (pl.col("uid") % mod_) if rng.random() < 0.5 else (pl.col("uid") % mod_).alias("bucket")
+            seen_e = []
+            for key, sub in mole.group_by(ex_):
+                kv = key[0] if isinstance(key, tuple) else key
+                rows_e = [r for r in t.rows if r["uid"] % mod_ == kv]
+                compare(case, sub, Table(rows_e, t.columns), f"group_by(expression) key={kv}")
+                seen_e += [r["uid"] for r in rows_e]
+            case.check(sorted(seen_e) == sorted(r["uid"] for r in t.rows), "group_by(expression): groups do not partition "
+                       "the input", None, n_seen=len(seen_e), n=N)
         seen = []
         groups = []
         for key, sub in grp:
